@@ -17,7 +17,7 @@ try:
     if ap.returncode != 0:
         meta["apply_error"] = ap.stderr[-500:]
     else:
-        t = subprocess.run(["/venv/bin/python", "/tmp/run_pinned.py", wt], capture_output=True, text=True)
+        t = subprocess.run(["/venv/bin/python", str(Path(__file__).resolve().parent / "run_pinned.py"), wt], capture_output=True, text=True)
         meta["pinned_tests"] = t.stdout.strip().splitlines()[-1] if t.stdout.strip() else "no output"
         meta["pinned_tests_pass"] = t.returncode == 0
         d0 = subprocess.run(["/venv/bin/python", str(src / "demo.py"), "/repo"], capture_output=True, text=True, timeout=600)
